@@ -88,7 +88,27 @@ def run(chk):
         if m.get("kind") == "mismatch":
             chk.finding(m["key"], {"stage": "A:indicator-configs", "ctx": m.get("ctx")})
     isumm = [l for l in ilines if l.get("kind") == "summary"][0]
-    chk.stage("A:indicators", configs=len(irows), accepted=isumm["extra"]["accepted"])
+    # accepted instances on LONG streams (trends with ripple: hundreds of local peaks on one side of zero; steady rallies of
+    # > PeriodType::MAX bars): internal counters of PeriodType width must not overflow
+    os.environ["YV_LONG_REGIMES"] = "1"
+    try:
+        lf = os.path.join(wd, "long.ndjson")
+        run_harness(yv, ["ind-record", chk.seed * 100 + 3, 72 if quick else 216, 1500 if quick else 4000, 1, lf], timeout=3000)
+    finally:
+        os.environ.pop("YV_LONG_REGIMES", None)
+    cur = None
+    long_steps = 0
+    for l in open(lf):
+        if '"ind_new"' in l:
+            cur = json.loads(l)
+        elif '"panic"' in l:
+            e = json.loads(l)
+            msg = e.get("panic", "")
+            cls = "arithmetic-overflow" if "overflow" in msg else ("index-out-of-range" if "out of range" in msg or "out of bounds" in msg else "other")
+            chk.finding("%s:next:panic[%s]" % (cur["name"], cls), {"stage": "A:long-streams", "config": cur["raw_cfg"], "msg": msg[:300], "trace": lf})
+        else:
+            long_steps += 1
+    chk.stage("A:indicators", configs=len(irows), accepted=isumm["extra"]["accepted"], long_stream_steps=long_steps)
     chk.cov["replayed_behaviours"] += len(irows)
     chk.cov["traces_validated_against_impl"] += len(irows)
     chk.stage("A", rows=len(rows), constructed=summ["extra"]["constructed"], comparisons=summ["checked"])
